@@ -273,7 +273,19 @@ fn via_parsers(ctx: &mut Ctx) {
     o.max_syms = 6;
     o.density = 6;
     let (spec, _) = gen_object(&mut ctx.rng, enc, &o);
-    let b = build(&spec, &mut ctx.rng);
+    let mut b = build(&spec, &mut ctx.rng);
+    // relocation sections declare any sh_entsize (0, the record size, multiples of it, the whole section size, junk):
+    // the plain entry iterators yield the whole entries of the section whatever it says
+    for i in 1..b.shnum {
+        let ty = b.field(&format!("shdr[{i}].sh_type")).and_then(|f| b.enc.get(&b.bytes, f.off, f.w)).unwrap_or(0);
+        if (ty == k::SHT_REL as u64 || ty == k::SHT_RELA as u64) && ctx.rng.bool() {
+            let es = size_of(if ty == k::SHT_RELA as u64 { St::Rela } else { St::Rel }, enc.c64) as u64;
+            let size = b.field(&format!("shdr[{i}].sh_size")).and_then(|f| b.enc.get(&b.bytes, f.off, f.w)).unwrap_or(0);
+            let v = *ctx.rng.pick(&[0u64, es, 2 * es, 3 * es, size, size / 2, es + 1, 1, u32::MAX as u64]);
+            b.poke(&format!("shdr[{i}].sh_entsize"), v);
+            ctx.count("via:rel-sections-with-arbitrary-sh_entsize");
+        }
+    }
     let data = &b.bytes[..];
     ctx.set_input(data);
     let Ok(r) = ref_open(data, &[1, 2]) else { return };
